@@ -21,7 +21,11 @@ import sympy as sp
 from . import interp, registry, shim
 from .interp import HarnessError, _is_access
 
-CACHE = shim.VERIF / ".cache" / "conform"
+import hashlib as _hl
+
+_here = Path(__file__).resolve().parent
+MODEL_VERSION = _hl.sha256((_here / "conform.py").read_bytes() + (_here / "interp.py").read_bytes()).hexdigest()[:10]
+CACHE = shim.VERIF / ".cache" / "conform" / MODEL_VERSION
 
 
 def _abs_bound(expr, env, one):
@@ -155,8 +159,9 @@ def conform_kernel(ck) -> dict:
                         tol = 4 * n_terms * eps * bound + np.finfo(dtype).tiny
                         if ck.has_trig:
                             tol = tol * 4
-                        wi = a_i[lhs.field.name][region].astype(np.float64)
-                        wj = a_j[lhs.field.name][region].astype(np.float64)
+                        wreg = tuple(slice(s.start + int(o), s.stop + int(o)) for s, o in zip(region, lhs.offsets))
+                        wi = a_i[lhs.field.name][wreg].astype(np.float64)
+                        wj = a_j[lhs.field.name][wreg].astype(np.float64)
                         dev = np.abs(wi - wj)
                         ratio = float(np.max(dev / tol)) if dev.size else 0.0
                         rec["max_dev_over_tol"] = max(rec["max_dev_over_tol"], ratio)
@@ -168,9 +173,11 @@ def conform_kernel(ck) -> dict:
                     else:
                         env[lhs] = interp.evaluate(rhs, env, interp._Ctx("float", np.float64))
                 # outside the region: bit-for-bit equal to the pre-state, both back ends
-                mask = np.ones(shape, dtype=bool)
-                mask[region] = False
                 for n in names:
+                    mask = np.ones(shape, dtype=bool)
+                    for wn, woff in ck.writes:
+                        if wn == n:
+                            mask[tuple(slice(s.start + o, s.stop + o) for s, o in zip(region, woff))] = False
                     for arrs, who in ((a_i, "interp"), (a_j, "jit")):
                         if n in ck.written_fields:
                             if arrs[n][mask].tobytes() != pre[n][mask].tobytes():
@@ -219,6 +226,7 @@ def ensure(runner=None, dtypes=("float64", "float32"), threads=(False,), only=No
                     need.setdefault((name, json.dumps(opts, sort_keys=True), dt, th), set()).add(ck.ir_key)
     tasks = [(n, json.loads(o), dt, th, frozenset(keys)) for (n, o, dt, th), keys in need.items()]
     fresh = 0
+    fresh_mismatch = []
     if tasks:
         if pool is None and runner is not None:
             pool = runner.pool()
@@ -226,7 +234,12 @@ def ensure(runner=None, dtypes=("float64", "float32"), threads=(False,), only=No
         for recs in results:
             for rec in recs:
                 fresh += 1
+                if rec["status"] == "MISMATCH":
+                    fresh_mismatch.append((rec["origin"], rec.get("detail")))
+                    continue  # never cache a disagreement
                 (CACHE / f"{rec['ir_key']}.json").write_text(json.dumps(rec))
+    if fresh_mismatch:
+        raise HarnessError(f"interpreter and generated code disagree: {fresh_mismatch[:3]}")
     summary = {"kernels": len(all_keys), "validated_now": fresh, "replays": 0, "unbound": [], "skipped": [], "mismatch": [], "piecewise_both_branches": 0}
     for k, origin in all_keys.items():
         p = CACHE / f"{k}.json"
